@@ -40,15 +40,10 @@ fn main() {
                         .parent()
                         .unwrap_or(&Path::new("."))
                         .to_path_buf();
-                    let mut out_file_name = String::from(
-                        opt.source
-                            .as_path()
-                            .file_stem()
-                            .unwrap()
-                            .to_str()
-                            .unwrap_or(""),
-                    );
-                    out_file_name += ".hex";
+                    // (an OS string: the name need not be valid UTF-8)
+                    let mut out_file_name =
+                        opt.source.as_path().file_stem().unwrap().to_os_string();
+                    out_file_name.push(".hex");
 
                     source_parent.push(out_file_name);
 
@@ -79,15 +74,10 @@ fn main() {
                         .parent()
                         .unwrap_or(&Path::new("."))
                         .to_path_buf();
-                    let mut out_file_name = String::from(
-                        opt.source
-                            .as_path()
-                            .file_stem()
-                            .unwrap()
-                            .to_str()
-                            .unwrap_or(""),
-                    );
-                    out_file_name += ".eep.hex";
+                    // (an OS string: the name need not be valid UTF-8)
+                    let mut out_file_name =
+                        opt.source.as_path().file_stem().unwrap().to_os_string();
+                    out_file_name.push(".eep.hex");
 
                     source_parent.push(out_file_name);
 
